@@ -40,6 +40,12 @@ pub fn normalize(n: usize, bits: u32) -> BoxedStrategy<Vec<u64>> {
         2 => well_scaled(n, f.emax).prop_map(move |v| words(bits, &v)),
         5 => scaled,
         1 => pvec(any::<bool>(), n).prop_map(move |z| z.iter().map(|s| to_word(bits, if *s { -0.0 } else { 0.0 })).collect::<Vec<u64>>()),
+        // an ordinary vector with one lane replaced by +-inf / NaN
+        1 => (well_scaled(n, f.emax), 0..n, 0u8..4).prop_map(move |(v, ax, k)| {
+            let mut w = words(bits, &v);
+            w[ax] = to_word(bits, [f64::INFINITY, f64::NEG_INFINITY, f64::NAN, -f64::NAN][k as usize]);
+            w
+        }),
         2 => (lattice::lat(bits), 0..n, pvec(any::<bool>(), n)).prop_map(move |(l, ax, z)| (0..n).map(|i| if i == ax { l } else { to_word(bits, if z[i] { -0.0 } else { 0.0 }) }).collect::<Vec<u64>>()),
     ];
     let fb = prop_oneof![2 => lattice::lanes(bits, n), 1 => well_scaled(n, f.emax).prop_map(move |v| words(bits, &v))];
